@@ -224,9 +224,19 @@ SelfTruth(ev, p) ==
   ELSE IF ~IsNum(p.raw) THEN Float
   ELSE RawQuantity(ev, p.raw)
 
+\* the one-line text of a conversion shows the factors of the structured reply: `* F` and `/ G`
+HasSub(s, t) == \E k \in 1..(Len(s) - Len(t) + 1) : SubSeq(s, k, k + Len(t) - 1) = t
+TextShowsFactors(ev, i) ==
+  IF ~Has(ev, "plain") THEN TRUE
+  ELSE /\ (IF Has(ev.main, "factor") /\ ~HasSub(ev.plain, <<42, 32>> \o ev.main.factor)
+           THEN Say("REJECT", i, "main", "text-omits-factor") ELSE TRUE)
+       /\ (IF Has(ev.main, "divfactor") /\ ~HasSub(ev.plain, <<47, 32>> \o ev.main.divfactor)
+           THEN Say("REJECT", i, "main", "text-omits-divfactor") ELSE TRUE)
+
 Verdict(ev, i) ==
   IF ev.kind = "crash" THEN PrintT(<<"CRASH", i>>)
   ELSE \E T \in {Truth(ev)} :
+    /\ TextShowsFactors(ev, i)
     /\ (IF Has(ev, "main") /\ ev.kind # "subst"
         THEN CheckParts(ev, ev.main, T, TRUE, TRUE, TRUE, i, "main") ELSE TRUE)
     /\ (IF Has(ev, "main") /\ ev.kind = "subst"
